@@ -125,7 +125,8 @@ func Load(repo string, bc BuildConfig) (*Ctx, error) {
 		}
 	}
 	for fn := range ssautil.AllFunctions(prog) {
-		if c.inModule(fn) && fn.Blocks != nil {
+		// compiler generated wrappers / thunks / bound methods are looked through, never analysed
+		if c.inModule(fn) && fn.Blocks != nil && fn.Synthetic == "" {
 			c.modFuncs = append(c.modFuncs, fn)
 			c.modFuncSet[fn] = true
 		}
@@ -374,13 +375,38 @@ func (c *Ctx) Callees(site ssa.CallInstruction) []*ssa.Function {
 	var out []*ssa.Function
 	seen := map[*ssa.Function]bool{}
 	for _, e := range n.Out {
-		if e.Site == site && !seen[e.Callee.Func] {
-			seen[e.Callee.Func] = true
-			out = append(out, e.Callee.Func)
+		f := unwrapSynthetic(e.Callee.Func)
+		if e.Site == site && !seen[f] {
+			seen[f] = true
+			out = append(out, f)
 		}
 	}
 	sort.Slice(out, func(i, j int) bool { return c.FuncKey(out[i]) < c.FuncKey(out[j]) })
 	return out
+}
+
+// unwrapSynthetic looks through a compiler generated wrapper (promoted method, bound method,
+// thunk) to the declared function it forwards to.
+func unwrapSynthetic(f *ssa.Function) *ssa.Function {
+	for d := 0; d < 4 && f != nil && f.Synthetic != "" && f.Blocks != nil; d++ {
+		var target *ssa.Function
+		n := 0
+		for _, b := range f.Blocks {
+			for _, in := range b.Instrs {
+				if ci, ok := in.(ssa.CallInstruction); ok {
+					if t := ci.Common().StaticCallee(); t != nil {
+						target = t
+						n++
+					}
+				}
+			}
+		}
+		if n != 1 || target == nil {
+			return f
+		}
+		f = target
+	}
+	return f
 }
 
 // Reach computes the module functions reachable from the entry points, following
@@ -400,6 +426,7 @@ func (c *Ctx) reachable(g *callgraph.Graph, entries []*ssa.Function, stop func(*
 	r := &Reach{Set: map[*ssa.Function]bool{}, Parent: map[*ssa.Function]*ssa.Function{}}
 	var work []*ssa.Function
 	add := func(f, from *ssa.Function) {
+		f = unwrapSynthetic(f)
 		if f == nil || r.Set[f] || !c.modFuncSet[f] {
 			return
 		}
